@@ -203,7 +203,7 @@ class Input(object):
         :type network: str, Network
         """
 
-        self.prev_txid = to_bytes(prev_txid)
+        self.prev_txid = prev_txid if isinstance(prev_txid, bytes) and len(prev_txid) == 32 else to_bytes(prev_txid)
         self.output_n = output_n
         if isinstance(output_n, int):
             self.output_n_int = output_n
